@@ -152,11 +152,14 @@ Apply(n, data, ctx, arg) ==
       [] n.kind = "Sum" -> IF data.items = <<>> THEN Bad("proc", data, ctx) ELSE Ok(Float(SumSeq(data.items)), ctx)
       [] n.kind = "Rename" ->
             \* RenameRequiresKey: the value arrives as the resolved parameter k1; the
-            \* destination is written first, then the source key is deleted from the context
-            LET c2 == Set(ctx, n.k2, arg[n.k1])
-            IN IF c2[n.k1] = Absent THEN Bad("proc", data, c2) ELSE Ok(data, Set(c2, n.k1, Absent))
+            \* destination is written first, then the source key is deleted from the context.
+            \* RenameOfNoneIsNoOp: a key holding None is treated as "nothing to rename".
+            IF arg[n.k1].t = "null" THEN Ok(data, ctx)
+            ELSE LET c2 == Set(ctx, n.k2, arg[n.k1])
+                 IN IF c2[n.k1] = Absent THEN Bad("proc", data, c2) ELSE Ok(data, Set(c2, n.k1, Absent))
       [] n.kind = "Delete" ->
-            IF ctx[n.k1] = Absent THEN Bad("proc", data, ctx) ELSE Ok(data, Set(ctx, n.k1, Absent))
+            IF arg[n.k1].t = "null" THEN Ok(data, ctx)             \* DeleteOfNoneIsNoOp
+            ELSE IF ctx[n.k1] = Absent THEN Bad("proc", data, ctx) ELSE Ok(data, Set(ctx, n.k1, Absent))
       [] n.kind = "Template" -> Ok(data, Set(ctx, n.k2, Str(arg[n.k1])))
       [] n.kind \in {"SweepSrc", "SweepMul"} -> SweepOut(n, data, ctx, n.sw)
       [] n.kind = "SweepSrcCtx" ->
